@@ -135,6 +135,19 @@ reg("C47","misc","exploration","contract oracles for each stream helper with scr
     "cutoff writer (exactly the first N bytes downstream, later bytes reported written), line processor (lines split at newline, one trailing CR trimmed, any fragmentation, overflow at the configured size), hashing writer (digest of exactly the accepted bytes), preemptable writer (stops within its check interval), valve (nothing after Shut, callers see success), multi-closer (each closed once, first error); concurrent variants under -race.",
     "each helper is held to its doc comment")
 
+reg("C09","fsfault","fault_enumeration","strace errno injection at every filesystem syscall of a real transition in a child process, cold re-scan compared with the reported results",
+    "child: random tree, real scan, staged files (same device and tmpfs for a real cross-device rename), ownership configured in some plans, real core.Transition of 3-6 changes between marker syscalls, cold scan, comparison with Apply(pre-scan, results); parent: baseline strace, then one run per syscall index with a failure errno (EXDEV & co. on renames); in-process: staged file missing, provider errors, provider removing the file, cancellation before / inside the k-th Provide / on a timer. Coverage is counted as distinct (syscall, object role) pairs hit.",
+    "one fault per run in quick (second-order fault windows in thorough); only failure errnos are injected (fact-stating errnos such as ENOENT are not faults); an injection not visible inside the bracket is inconclusive")
+reg("C10","fsfault","exploration","disk re-observation (sha1) after the real local endpoint's Stage/Transition fed with corrupted, truncated, altered or aborted transfers",
+    "the real local endpoint as beta; the harness is the peer: sources changed after the plan was made, scripted operation streams that drop/duplicate/alter operations or abort at operation k, nothing sent, leftovers of an interrupted earlier round, locally sourced copies modified between scan and stage; after Transition every path whose result claims the planned file has the planned digest, bad data never reaches the root and is reported as missing.",
+    "a stray file planted at an exact staged address is not built")
+reg("C41","fsfault","exploration","reference comparison of the real local endpoint's Stage answers (independent sha1 bookkeeping) + entry-limit and call-order probes",
+    "roots with duplicates, renames/copies since the scan, pre-staged content: the returned paths are a subsequence of the request and a path is omitted iff already staged or available in the root by digest; with a maximum entry count no scan/stage/transition sequence exceeds it, the over-limit transition reports a problem and changes nothing; Stage or Transition twice without a Scan is refused.",
+    "the disk-limit assertion applies only when nothing was edited since the last successful scan")
+reg("C42","fsfault","exploration","real local endpoint with force-poll watching: scans after transitions compared with the independent walker, Poll returns under a control-relative bound; race detector on",
+    "polling interval 1 s, accelerated scans: after every changing Transition the next Scan (immediately and at offsets across the polling tick) equals the walker's view of the quiescent disk; external edits and immediate reversals of a transition make Poll return within 2 intervals + control-relative slack.",
+    "'eventually notices' restated as a bound relative to a heartbeat; unhealthy heartbeat = inconclusive")
+
 NOT_APPLICABLE = {}
 def main():
     props=[json.loads(l)["id"] for l in open("/verif/properties.jsonl")]
